@@ -1,5 +1,5 @@
 (* Runs the extracted V-cycle model (coq/Amg/Energy.v at Qc) on hierarchies dumped from the implementation.
-   case line:  <cid> mcyc <seq|par> <SOR|SSOR> <K> <nlev>  (csr A_l  csr P_l)*(nlev-1)  csr A_coarse  x0[n0]  b[n0]
+   case line:  <cid> mcyc <seq|par> <SOR|SSOR>[/sweeps] <K> <nlev>  (csr A_l  csr P_l)*(nlev-1)  csr A_coarse  x0[n0]  b[n0]
    csr literal: csr nr nc nnz ptr[nr+1] cols[nnz] vals[nnz]   (numbers: ints, p/q, hex floats read exactly)
    output:  <cid> WF <0|1 per relaxed level>     rows start with their diagonal (sweep_wfb)
             <cid> X <k> v...                      iterate after k cycles, exact rationals
@@ -31,7 +31,8 @@ let run_case cid (t : toks) =
   match op with
   | "mcyc" ->
     let variant = (match next t with "seq" -> VSeq | "par" -> VPar | s -> failwith ("variant " ^ s)) in
-    let kind = (match next t with "SOR" -> RSOR | "SSOR" -> RSSOR | s -> failwith ("relax " ^ s)) in
+    let (rname, sweeps) = (match String.split_on_char '/' (next t) with [r] -> (r, 1) | [r; s] -> (r, int_of_string s) | _ -> failwith "relax token") in
+    let kind = (match rname with "SOR" -> RSOR | "SSOR" -> RSSOR | s -> failwith ("relax " ^ s)) in
     let k = next_int t in let nlev = next_int t in
     let rec levels l = if l >= nlev - 1 then [] else begin
         let (a, _, _) = parse_csr t in let (p, _, pc) = parse_csr t in
@@ -45,7 +46,7 @@ let run_case cid (t : toks) =
        let x = ref x0 in
        Printf.printf "%s X 0 %s\n" cid (qs_str !x);
        for i = 1 to k do
-         x := q_cycle coarse_solve variant kind (q_of_int 1) (nat_of_int 1) lv ac !x b;
+         x := q_cycle coarse_solve variant kind (q_of_int 1) (nat_of_int sweeps) lv ac !x b;
          Printf.printf "%s X %d %s\n" cid i (qs_str !x)
        done
      with Singular -> Printf.printf "%s SINGULAR\n" cid
